@@ -490,6 +490,7 @@ package types
 //@ func (*ChainIndex).UnmarshalText
 //@   prop C20
 //@   modifies ci
+//@   ensures @id-part-exact-length result == nil ==> len(b) >= 66 && b[len(b)-66] == 58 && b[len(b)-65] == 58
 //@ func (*Address).UnmarshalText
 //@   prop C20
 //@   modifies a
